@@ -375,6 +375,10 @@ fn evaluate_big(g: &BigGraph, h: &History, world: &Rc<RefCell<BigWorld>>, fault:
                 Ok(Ok(())) => true,
                 Ok(Err(e)) => {
                     out.errors.push(("C06".into(), format!("{} -> {}", $name, err_str(&e).chars().take(200).collect::<String>())));
+                    // the error leaves the evaluation stuck (C05): not finished, nothing ready
+                    if !ev.is_finished() && ev.next_job_ready_to_run().is_none() && ev.query_jobs_running().is_empty() {
+                        out.errors.push(("C05".into(), format!("stall after the error in {}: not finished, nothing ready, nothing running", $name)));
+                    }
                     false
                 }
                 Err(p) if p.contains("verif: signal budget exceeded") => {
@@ -396,8 +400,23 @@ fn evaluate_big(g: &BigGraph, h: &History, world: &Rc<RefCell<BigWorld>>, fault:
     let mut running: VecDeque<usize> = VecDeque::new();
     let mut succeeded = 0usize;
     let mut guard = 0usize;
+    // first build: the set form of the ready report must list every job whose upstreams have all succeeded (C19:
+    // wide layers are offered like narrow ones); checked after startup and after 1, 2, 4, 8, ... completions
+    let first_build = h.is_empty();
+    let useless = g.useless();
+    let mut done: Vec<bool> = vec![false; n];
+    let mut next_check = 0usize;
     'outer: loop {
         guard += 1;
+        if first_build && succeeded >= next_check && out.errors.is_empty() {
+            next_check = if next_check == 0 { 1 } else { next_check * 2 };
+            let expected = (0..n).filter(|j| !out.started[*j] && !useless[*j] && g.ups[*j].iter().all(|u| done[*u])).count();
+            let got = ev.query_ready_to_run().len();
+            if got != expected {
+                out.errors.push(("C19".into(), format!("after {} completions of the first build query_ready_to_run() lists {} jobs, but {} unstarted jobs have all their upstreams done", succeeded, got, expected)));
+                break;
+            }
+        }
         if guard > 4 * n + 10 {
             out.errors.push(("C05".into(), "driver exceeded 4*jobs+10 iterations".into()));
             break;
@@ -520,6 +539,7 @@ fn evaluate_big(g: &BigGraph, h: &History, world: &Rc<RefCell<BigWorld>>, fault:
                         break;
                     }
                     succeeded += 1;
+                    done[j] = true;
                 }
             }
         }
